@@ -18,6 +18,10 @@ Refines ==
     ]_vars
 FullIffSizeCap == full = RingFull(Abs(Cur), Cap)       \* Full() <=> Size() = c
 SizeAgrees == size = Len(Abs(Cur))                      \* C15
+\* the full model steps according to the value-free index arithmetic that spec/proofs/RingInv.tla proves
+\* invariant for every capacity (stuttering for Peek)
+RI == INSTANCE RingIdx
+IdxRefines == [][RI!Next]_<<start, end, full, size>>
 View == core
 Fid == PrintT("S|" \o ToJson(<<[i \in 1..Cap |-> values[i - 1]], start, end, full, size>>))
 =============================================================================
